@@ -384,7 +384,7 @@ def run(ctx):
     ctx.assumptions += ['numpy/scipy fftn/ifftn compute the DFT / inverse DFT with 1/M normalisation', 'BLAS gemm computes matrix products',
                         'the weights reported by the grids are the weights the property refers to']
     thorough = ctx.tier == 'thorough'
-    n = ctx.scale(320, 5000)
+    n = ctx.scale(320, 4200)
     cases = [dict(c) for c in c01.DIRECTED]
     for c in c01.DIRECTED[:4]:
         c2 = dict(c)
